@@ -18,8 +18,10 @@
     * freedom from data races / shared mutable state under concurrent use is a property of the Go
       runtime execution that no Gallina model exhibits; it is covered by the harness only
       (goroutines + a -race build, see notes/C20.md);
-    * [..._partial] theorems carry a premise about a function that is not modelled (the memoising
-      DFS of schemahcl's evalReferences, the bucket effect of QualifyObjects);
+    * [..._partial] theorems carry a premise about a function that is not modelled (the bucket
+      effect of QualifyObjects); evalReferences is proved on a model of its closure [visit] under
+      a locality premise on the (unmodelled) HCL expression evaluator; that the error STATUS is
+      also independent of the order in which edges() lists references is not proved (the value is);
     * the models of State.EvalOptions, Resource.as and registry.lookup follow the tree WITH the
       three fixes notes/fixes/C20-hcl-*.diff (before them each had a _refuted/_except pair);
     * [C20_decl_order_partial] covers the DetachCycles stage only (no premise: sortMap's cycle
@@ -29,7 +31,7 @@
 From Coq Require Import List Bool Arith NArith Permutation String Relations.
 From Coq Require Sorting.Sorted.
 From Atlas Require Import Base.Bytes Plan.SortModel Dir.DirModel.
-From Atlas Require Import Det.Census Det.OrderModel Det.OrderIndep Det.SortMapCycle Det.CensusCovered gen.Gen_MapRanges.
+From Atlas Require Import Det.Census Det.OrderModel Det.OrderIndep Det.SortMapCycle Det.EvalRefs Det.CensusCovered gen.Gen_MapRanges.
 Import ListNotations.
 
 (** * Census *)
@@ -146,21 +148,43 @@ Proof. vm_compute. reflexivity. Qed.
 
 (** * schemahcl/context.go *)
 
-(* PARTIAL: [visit] (memoising DFS + cycle detection + expression evaluation) is not modelled;
-   premise: visiting two nodes in either order fails in both orders or reaches the same context.
-   Full statement: the premise holds of the real closure for every graph of locals/data blocks. *)
-Theorem C20_map_order_irrelevant_evalReferences_partial :
-  forall (Ctx Node : Type) (referenced : Node -> bool) (visit : Ctx -> Node -> option Ctx),
-  (forall a b c, bindo (visit c a) (fun c' => visit c' b) = bindo (visit c b) (fun c' => visit c' a)) ->
-  forall nodes nodes' : list (bytes * Node), Permutation nodes nodes' ->
-  forall c, evalReferences_nodes Ctx Node referenced visit nodes c = evalReferences_nodes Ctx Node referenced visit nodes' c.
-Proof. exact evalReferences_nodes_perm_partial. Qed.
-Print Assumptions C20_map_order_irrelevant_evalReferences_partial.
-(* a visit that satisfies the premise: mark the node, fail on node 0 *)
+(* State.evalReferences with its closure [visit] modelled (DFS with cycle detection through
+   [progress]; [visited] is never written in the Go code, so nothing is memoised).  For every
+   order of the map [nodes] the loop fails in both orders or leaves the same context.
+   Premise about the HCL expression evaluator, which is not modelled: the value of a node's
+   expression depends only on the context entries of the addresses it refers to. *)
+Theorem C20_map_order_irrelevant_evalReferences :
+  forall (Val : Type) (valueOf : nat -> ectx Val -> option Val) (referenced : nat -> bool) (T : deps_t),
+  (forall n c c', (forall e, In e (edges_of T n) -> mget Val e c = mget Val e c') -> valueOf n c = valueOf n c') ->
+  forall (l l' : list (nat * list nat)) (c : ectx Val),
+  Permutation l l' -> incl (map fst l) (map fst T) -> msorted Val c ->
+  evalReferences_loop Val valueOf T referenced l c = evalReferences_loop Val valueOf T referenced l' c.
+Proof. exact evalReferences_loop_perm. Qed.
+Print Assumptions C20_map_order_irrelevant_evalReferences.
+(* 1 -> 2 -> 3, 4 -> 3; value = 1 + sum of the values referred to; node 5 refers to itself *)
 Example C20_evalReferences_ex :
-  let visit (c : list nat) (n : nat) := if n =? 0 then None else Some (if existsb (Nat.eqb n) c then c else insert_by (fun x => x) Nat.ltb n c) in
-  evalReferences_nodes (list nat) nat (fun _ => true) visit [([97%N], 2); ([98%N], 1)] [] = Some [1; 2]
-  /\ evalReferences_nodes (list nat) nat (fun _ => true) visit [([98%N], 1); ([97%N], 2)] [] = Some [1; 2].
+  let T := [(1, [2]); (2, [3]); (3, []); (4, [3; 9])] in
+  let valueOf n (c : ectx nat) := Some (S (fold_left (fun s e => s + match mget nat e c with Some v => v | None => 0 end) (edges_of T n) 0)) in
+  evalReferences_loop nat valueOf T (fun _ => true) [(4, [3; 9]); (1, [2]); (3, []); (2, [3])] [] = EOk nat [(1, 3); (2, 2); (3, 1); (4, 2)]
+  /\ evalReferences_loop nat valueOf T (fun _ => true) T [] = EOk nat [(1, 3); (2, 2); (3, 1); (4, 2)]
+  /\ evalReferences_loop nat valueOf [(5, [5])] (fun _ => true) [(5, [5])] [] = EErr nat.
+Proof. vm_compute. repeat split; reflexivity. Qed.
+
+(* edges() of data/typed blocks is bodyVars, itself a map order: the VALUE a node receives is the
+   same whatever order the references are listed in (two edge tables with the same references) *)
+Theorem C20_map_order_irrelevant_evalReferences_edge_order :
+  forall (Val : Type) (valueOf : nat -> ectx Val -> option Val) (T T' : deps_t),
+  (forall a, In a (map fst T) <-> In a (map fst T')) ->
+  (forall n e, In e (deps_get n T) <-> In e (deps_get n T')) ->
+  (forall n c c', (forall e, In e (edges_of T n) -> mget Val e c = mget Val e c') -> valueOf n c = valueOf n c') ->
+  forall f k p a v, trace Val valueOf T f k p = TOk Val (a ++ [(k, v)]) ->
+  forall f' p' a' v', trace Val valueOf T' f' k p' = TOk Val (a' ++ [(k, v')]) -> v = v'.
+Proof. exact value_det. Qed.
+Print Assumptions C20_map_order_irrelevant_evalReferences_edge_order.
+Example C20_evalReferences_edge_order_ex :
+  let valueOf n (c : ectx nat) := Some (S (match mget nat 2 c with Some v => v | None => 0 end + match mget nat 3 c with Some v => v | None => 0 end)) in
+  trace nat valueOf [(1, [2; 3]); (2, []); (3, [])] 4 1 [] = TOk nat ([(2, 1); (3, 1)] ++ [(1, 3)])
+  /\ trace nat valueOf [(1, [3; 2]); (2, []); (3, [])] 4 1 [] = TOk nat ([(3, 1); (2, 1)] ++ [(1, 3)]).
 Proof. vm_compute. split; reflexivity. Qed.
 
 Theorem C20_map_order_irrelevant_blockVars :
@@ -182,7 +206,7 @@ Theorem C20_map_order_irrelevant_bodyVars_refuted :
 Proof. exact bodyVars_order_leaks. Qed.
 Print Assumptions C20_map_order_irrelevant_bodyVars_refuted.
 (* ... it is the same up to permutation; its only consumer is the edge loop of [visit]
-   (C20_map_order_irrelevant_evalReferences_partial) *)
+   (C20_map_order_irrelevant_evalReferences, _edge_order) *)
 Theorem C20_map_order_irrelevant_bodyVars_except : forall (T : Type) (attrs attrs' : list (bytes * list T)),
   Permutation attrs attrs' -> Permutation (bodyVars attrs) (bodyVars attrs').
 Proof. exact @bodyVars_perm. Qed.
